@@ -73,6 +73,10 @@ func seqProfile(prop string, cas int, tier string) Profile {
 		p.DeadProbe = true
 		p.RestartEvery = 12
 		p.WalkEvery = 50
+		if tier == "thorough" && cas%20 == 7 {
+			p.InodeExhaust = true
+			p.WalkEvery = 0
+		}
 	case "C09":
 		p.NOps = 160
 		p.DiskBlocks = []uint64{1600, 1700, 2100, 3000, 6000}[cas%5]
@@ -84,6 +88,10 @@ func seqProfile(prop string, cas int, tier string) Profile {
 		p.W[OpSymlink] *= 3
 		p.W[OpRename] *= 2
 		p.Big = cas%4 == 3 // oversized requests the journal rejects
+		if tier == "thorough" && cas%20 == 9 {
+			p.InodeExhaust = true
+			p.DiskBlocks = 6000
+		}
 	case "C10":
 		p.NOps = 120
 		p.DiskBlocks = 12000
@@ -491,7 +499,7 @@ func propSpecs() map[string]PropSpec {
 		Rule: "the harness is built with -race (which also instruments /repo and GoJournal) and runs the conflicting concurrent histories of C03 (same names, same files, shrinker active, READDIRPLUS during updates, restarts, direct and rpc adapters) with the lock monitor and seeded yields on; every report of the race detector with a repository or GoJournal frame is a violation (de-duplicated by the pair of first repository frames); distinct = distinct interleaving fingerprints, counted only when locks were contended",
 		Plan: withConc(noJobs, "C14", 16, 200, true),
 		Assume: []string{"the race detector only observes the interleavings that were executed", "GORACE=halt_on_error=0: reports are collected from the log files, exit codes are not trusted"}})
-	add(PropSpec{ID: "C15", Level: "exploration", Classes: []string{"size", "crash"},
+	add(PropSpec{ID: "C15", Level: "exploration", Exhaustive: true, Classes: []string{"size", "crash"},
 		Rule: "EXHAUSTIVE over the stated ranges: every disk size from the smallest one MakeNfs accepts (found by trying downwards) for 400 (thorough: 3000) consecutive sizes and every size within +-40 of 32768*k (k=1,2,3) is formatted by the real MakeNfs; per size: regions ordered/disjoint/inside the disk, fresh bitmaps mark exactly the non-data blocks + the root directory and inodes 0,1, allocators agree, root usable; sampled sizes (thorough: all of the dense range) are filled to NOSPC (free must reach 0, every data block owned once, none outside) and emptied again (free = initial); distinct = distinct (bitmap blocks, size mod 8, position relative to 32768) classes",
 		Plan: func(tier string, seed uint64) []Job {
 			min := findMinSize()
